@@ -372,7 +372,7 @@ def run(ctx: Ctx) -> None:
                     ctx.count("C12.clouds_with_inside_and_outside")
                 ctx.case(("box", cols, scale, "sliver" if min(size[:2]) < 0.05 else "huge" if max(size[:2]) > 50 else "normal", len(a) > 0, len(b) > 0), nontrivial=len(a) > 0 and len(b) > 0)
         # ---- (3) sensing frames, direct
-        for idx in ctx.indices("frames", 80 if ctx.quick else 6000):
+        for idx in ctx.indices("frames", 80 if ctx.quick else 20000):
             r = ctx.rng("frames", idx)
             n_obj = r.randint(0, 6)
             objs, clouds = [], []
@@ -429,7 +429,7 @@ def run(ctx: Ctx) -> None:
         from perception_eval.config import SensingEvaluationConfig
         from perception_eval.manager import SensingEvaluationManager
 
-        for idx in ctx.indices("manager", 10 if ctx.quick else 600):
+        for idx in ctx.indices("manager", 10 if ctx.quick else 2500):
             r = ctx.rng("manager", idx)
             n_s = r.randint(1, 3)
             samples, pcs, boxes_per = [], [], []
